@@ -42,7 +42,7 @@ def run(ck: Check):
             ye = l(x)
         d = float((yt - ye).abs().max())
         ck.count("outputs_compared", int(np.prod(yt.shape)))
-        if d > TOL:
+        if not d <= TOL:          # NaN counts as a difference
             ck.disagree("training-mode output under forward_sampling='hard' differs from the eval-mode output", dict(case, maxdiff=d),
                         signature=sig)
             return False
@@ -157,7 +157,7 @@ def run(ck: Check):
             with torch.no_grad():
                 y = l(xb)
             yr = y.round()
-            if float((y - yr).abs().max()) > TOL:
+            if not (float((y - yr).abs().max()) <= TOL):
                 ck.disagree("gumbel_hard training output on Boolean inputs is not Boolean", {"param": par},
                             signature={"layer": "dense", "param": par, "what": "gumbel-hard-boolean"})
                 break
